@@ -28,7 +28,9 @@ def showResp : Py Resp → String
   | .ok (.state _ r) => s!"state {r.state} {String.ofList r.timeLeft} {String.ofList r.timeOn} {String.ofList r.autoShutdown} {r.power} {tenths r.ampsTenths}"
   | .ok (.thermo _ r) => s!"thermo {r.state} {r.mode} {r.fan} {tenths r.tempTenths} {r.target} {r.swing} {encText r.remoteId}"
   | .ok (.shutter _ r) => s!"shutter {r.position} {r.direction}"
-  | .ok (.schedules raw) => "schedules " ++ hexOfBytes raw
+  | .ok (.schedules _ recs) => "schedules " ++ (if recs.isEmpty then "-" else ";".intercalate
+      ((recs.mergeSort (fun a b => a.id ≤ b.id)).map (fun r =>
+        s!"{r.id},{if r.recurring then 1 else 0},{showNats (r.days.mergeSort (· ≤ ·))},{String.ofList r.start},{String.ofList r.stop},{String.ofList r.duration},{encText r.display}")))
 
 /-- `ir=<u:id>,<onofftype>,<u:key>/<u:para>/<u:hex>,…` -/
 def parseIrSet (tok : String) : Option IrSet := do
